@@ -460,4 +460,21 @@ fn run(e: &Engine) {
         },
         check,
     );
+    if e.tier == crate::engine::Tier::Thorough {
+        e.fuzz(
+            "fuzz-c19_lists",
+            "c19_lists",
+            6_000_000,
+            |b| match b.split_first() {
+                Some((k, rest)) if k & 1 == 1 => {
+                    let mut t = vec![b'@'];
+                    t.extend_from_slice(rest);
+                    Case { channel: true, text: B(t) }
+                }
+                Some((_, rest)) => Case { channel: false, text: B(rest.to_vec()) },
+                None => Case { channel: false, text: B(vec![]) },
+            },
+            check,
+        );
+    }
 }
